@@ -590,6 +590,13 @@ fn try_spawn_input_processing<'scope>(
     scope: &Scope<'scope>,
 ) {
     loop {
+        // Once all input groups have been taken, there's nothing left for a new task to do. Without
+        // this check, we'd keep reserving and spawning no-op tasks for as long as each no-op task
+        // returned its reservation before we looked again.
+        if resources.unprocessed.is_empty() {
+            return;
+        }
+
         let Ok(mut reservation) = resources.reuse_pool.try_reserve(MERGE_STRING_BUCKETS) else {
             return;
         };
